@@ -22,7 +22,7 @@ def settle(h, max_cycles=6):
     return False
 
 
-def gen_probe(h, rng, k):
+def gen_probe(h, rng, k, force_mode=None):
     drv = h.drv
     H = drv.H
     label = rng.choice(H.labels)
@@ -32,7 +32,8 @@ def gen_probe(h, rng, k):
     spec['once'] = False
     spec['retention'] = 0
     members = drv.cell.members()
-    mode = rng.choice(['free', 'free', 'free-1', 'free+1', 'small', 'clone', 'clone', 'clone-min', 'clone-min'])
+    mode = rng.choice(['free', 'free', 'free-1', 'free+1', 'small', 'clone', 'clone', 'clone-min', 'clone-min', 'clone-traitless'])
+    mode = force_mode or mode
     cands = [s for s in sorted(H.servers) if H.servers[s]['label'] == label]
     if mode.startswith('free') and cands:
         s = rng.choice(cands)
@@ -60,6 +61,18 @@ def gen_probe(h, rng, k):
                 spec['demand'] = [x + rng.choice([0, 0, 1]) for x in src['demand']]
             if rng.random() < 0.5:
                 spec['traits'] = 0
+    elif mode == 'clone-traitless':
+        # the twin of a pending instance that needs traits (its own or its allocation's), without the traits: the
+        # failure recorded for the instance that needs them says nothing about the twin
+        pend = [n for n, a in sorted(drv.cell.apps.items()) if a.server is None and H.apps[n]['alloc'][0] == label and
+                (H.apps[n]['traits'] | H.allocs[oracles.tuple_key(H.apps[n]['alloc'])]['traits'])]
+        if pend:
+            src = H.apps[rng.choice(pend)]
+            spec.update(affinity=src['affinity'], limits=dict(src['limits']), lease=src['lease'], traits=0,
+                        demand=[x + rng.choice([0, 0, 1]) for x in src['demand']])
+            drv.mon.count('probe_traitless_twin_of_pending_instance')
+            if src.get('moved'):
+                drv.mon.count('probe_traitless_twin_after_allocation_traits_changed')
     elif mode == 'clone-min':
         # demand at (or just above) the component-wise minimum of the pending
         # instances sharing one shape: the probe is comparable with none of
